@@ -170,7 +170,23 @@ class CallMixin:
             cache[cls] = out
         return cache[cls]
 
+    def enum_member_of(self, v: V) -> Optional[V]:
+        """A reference `pkg.mod.Cls.NAME` to a member of an in-repo enum is that member (constants folded from module level name
+        members this way)."""
+        if not isinstance(v, RefV) or "." not in v.qual:
+            return None
+        cq, name = v.qual.rsplit(".", 1)
+        ci = self.repo.classes.get(cq)
+        if ci is None or name.startswith("_") or name not in ci.assigns:
+            return None
+        if not any(b in ("enum.Enum", "enum.IntEnum", "enum.StrEnum", "enum.Flag", "enum.IntFlag") for b in self.repo.mro(ci.qual)):
+            return None
+        return self.ref_attr(RefV(ci.qual), name)
+
     def ref_attr(self, base: RefV, attr: str) -> V:
+        em = self.enum_member_of(base)
+        if em is not None:
+            return self.getattr_v(em, attr, self.repo.classes[em.cls].module)
         q = base.qual
         if q in self.repo.modules:
             mod = self.repo.modules[q]
